@@ -1387,4 +1387,149 @@ theorem load_save_batches' (n : Nat) : ∀ xs : List Item, loadBatches (saveBatc
     simp only [loadBatches, List.flatten_cons] at ih ⊢
     rw [ih, List.take_append_drop]
 
+/-! # Phase 4 -/
+
+theorem fit_stage_reads' (sd : List Rat → Rat) (dec : List Item → C11.Ctxs) (enc : C11.Ctxs → List Item) (s : FitStage) (par : List Nat)
+    (u : List Item) (ns : List Node) (h : chainOK u ns) (d : Demand) :
+    viewN u (ns ++ [.pure (fitPure sd dec enc s par)]) = enc (s.apply sd (dec (denN u ns))) ∧
+    viewN u (touchN u (ns ++ [.pure (fitPure sd dec enc s par)]) d).1 = enc (s.apply sd (dec (denN u ns))) :=
+  pure_stage_stable' u ns h (fitPure sd dec enc s par) d
+
+theorem fit_chain_den (sd : List Rat → Rat) (dec : List Item → C11.Ctxs) (enc : C11.Ctxs → List Item) (hde : ∀ c, dec (enc c) = c)
+    (u : List Item) : ∀ (ss : List (FitStage × List Nat)) (ns : List Node), chainOK u ns →
+    chainOK u (ns ++ ss.map (fun s => Node.pure (fitPure sd dec enc s.1 s.2))) ∧
+    dec (denN u (ns ++ ss.map (fun s => Node.pure (fitPure sd dec enc s.1 s.2)))) = fitDen sd (ss.map (·.1)) (dec (denN u ns))
+  | [], ns, h => by simpa [fitDen] using h
+  | s :: ss, ns, h => by
+    have hc : chainOK u (ns ++ [Node.pure (fitPure sd dec enc s.1 s.2)]) := by
+      rw [chainOK_append]; exact ⟨h, by simp [chainOK, nodeOK, Node.Fixed]⟩
+    obtain ⟨h1, h2⟩ := fit_chain_den sd dec enc hde u ss _ hc
+    have e : ns ++ List.map (fun s => Node.pure (fitPure sd dec enc s.1 s.2)) (s :: ss)
+        = (ns ++ [Node.pure (fitPure sd dec enc s.1 s.2)]) ++ ss.map (fun s => Node.pure (fitPure sd dec enc s.1 s.2)) := by simp
+    rw [e]
+    refine ⟨h1, ?_⟩
+    rw [h2, denN_append]
+    show fitDen sd (ss.map (·.1)) (dec (enc (s.1.apply sd (dec (denN u ns))))) = _
+    rw [hde]
+    simp [fitDen]
+
+theorem fit_pipeline_reads' (sd : List Rat → Rat) (dec : List Item → C11.Ctxs) (enc : C11.Ctxs → List Item) (hde : ∀ c, dec (enc c) = c)
+    (u : List Item) (ns : List Node) (h : chainOK u ns) (ss : List (FitStage × List Nat)) (d : Demand) :
+    dec (viewN u (ns ++ ss.map (fun s => Node.pure (fitPure sd dec enc s.1 s.2)))) = fitDen sd (ss.map (·.1)) (dec (denN u ns)) ∧
+    dec (viewN u (touchN u (ns ++ ss.map (fun s => Node.pure (fitPure sd dec enc s.1 s.2))) d).1) = fitDen sd (ss.map (·.1)) (dec (denN u ns)) := by
+  obtain ⟨hc, hd⟩ := fit_chain_den sd dec enc hde u ss ns h
+  obtain ⟨h1, h2, _⟩ := compose_stable' u _ hc d
+  rw [h1, h2]
+  exact ⟨hd, hd⟩
+
+theorem fit_reads_fresh' (sd : List Rat → Rat) (s : FitStage) (c : C11.Ctxs) :
+    ∀ ds : List Demand, fitReadsFresh sd s c ds = ds.map (fun d => demTake d (s.apply sd c))
+  | [] => rfl
+  | d :: ds => by simp [fitReadsFresh, fit_reads_fresh' sd s c ds]
+
+theorem ctxsDrop_zero (c : C11.Ctxs) : ctxsDrop 0 c = c := by cases c <;> simp [ctxsDrop]
+
+/-- the kept-iterator variant agrees with the real one exactly as long as nothing has been pulled -/
+theorem fit_kept_unread' (sd : List Rat → Rat) (s : FitStage) (c : C11.Ctxs) (d : Demand) :
+    ∀ n : Nat, fitReadsKept sd s c 0 (List.replicate n .none ++ [d]) = fitReadsFresh sd s c (List.replicate n .none ++ [d])
+  | 0 => by simp [fitReadsKept, fitReadsFresh, ctxsDrop_zero]
+  | n + 1 => by
+    have := fit_kept_unread' sd s c d n
+    simp only [List.replicate_succ, List.cons_append, fitReadsKept, fitReadsFresh, ctxsDrop_zero, fitPulled, Nat.add_zero]
+    rw [this]
+
+/-! ### aliasing, general form -/
+
+theorem gstage_store_grows {α : Type} (d : α) (s : GStage α) (hs : s.writesInput = false) (st : List α) (as : List Nat) :
+    ∃ ext, (s.run d (st, as)).1 = st ++ ext := by
+  cases s with
+  | alloc F => exact ⟨_, rfl⟩
+  | share => exact ⟨[], by simp [GStage.run]⟩
+  | pick sel => exact ⟨[], by simp [GStage.run]⟩
+  | write F => simp [GStage.writesInput] at hs
+
+theorem grunStages_store_grows {α : Type} (d : α) : ∀ (ss : List (GStage α)) (_ : ∀ s ∈ ss, s.writesInput = false) (st : List α) (as : List Nat),
+    ∃ ext, (grunStages d ss (st, as)).1 = st ++ ext
+  | [], _, st, as => ⟨[], by simp [grunStages]⟩
+  | s :: ss, h, st, as => by
+    obtain ⟨e1, h1⟩ := gstage_store_grows d s (h s (by simp)) st as
+    have hrun : s.run d (st, as) = (st ++ e1, (s.run d (st, as)).2) := by rw [← h1]
+    obtain ⟨e2, h2⟩ := grunStages_store_grows d ss (fun x hx => h x (by simp [hx])) (st ++ e1) (s.run d (st, as)).2
+    refine ⟨e1 ++ e2, ?_⟩
+    rw [grunStages, hrun, h2, List.append_assoc]
+
+theorem gno_stage_writes_input' {α : Type} (d : α) (ss : List (GStage α)) (h : ∀ s ∈ ss, s.writesInput = false) (st : List α) (held : List Nat) :
+    (greadOnce d ss st held).1.take st.length = st := by
+  obtain ⟨ext, he⟩ := grunStages_store_grows d ss h st held
+  unfold greadOnce
+  rw [he]; simp
+
+theorem gdeliver_alloc {α : Type} (d : α) (st vals : List α) :
+    gvals d (st ++ vals) ((List.range vals.length).map (· + st.length)) = vals := by
+  apply List.ext_getElem
+  · simp [gvals]
+  · intro i h1 h2
+    simp [gvals] at h1
+    simp [gvals, List.getD, List.getElem?_append_right, h1]
+
+theorem gvals_pick {α : Type} (d : α) (st : List α) (as : List Nat) (idx : List Nat) :
+    gvals d st (idx.filterMap (fun i => as[i]?)) = idx.filterMap (fun i => (gvals d st as)[i]?) := by
+  unfold gvals
+  rw [List.map_filterMap]
+  apply List.filterMap_congr
+  intro i _
+  simp [List.getElem?_map]
+
+theorem gstage_deliver_congr {α : Type} (d : α) (s : GStage α) (hs : s.writesInput = false) (st1 st2 : List α) (as1 as2 : List Nat)
+    (h : gvals d st1 as1 = gvals d st2 as2) :
+    gdeliver d (s.run d (st1, as1)) = gdeliver d (s.run d (st2, as2)) := by
+  cases s with
+  | alloc F =>
+    simp only [GStage.run, gdeliver]
+    rw [gdeliver_alloc, gdeliver_alloc, h]
+  | share => simpa [GStage.run, gdeliver] using h
+  | pick sel =>
+    have hl : as1.length = as2.length := by
+      have := congrArg List.length h
+      simpa [gvals] using this
+    simp only [GStage.run, gdeliver]
+    rw [gvals_pick, gvals_pick, h, hl]
+  | write F => simp [GStage.writesInput] at hs
+
+theorem grunStages_deliver_congr {α : Type} (d : α) : ∀ (ss : List (GStage α)) (_ : ∀ s ∈ ss, s.writesInput = false)
+    (st1 st2 : List α) (as1 as2 : List Nat), gvals d st1 as1 = gvals d st2 as2 →
+    gdeliver d (grunStages d ss (st1, as1)) = gdeliver d (grunStages d ss (st2, as2))
+  | [], _, st1, st2, as1, as2, hv => by simpa [grunStages, gdeliver] using hv
+  | s :: ss, h, st1, st2, as1, as2, hv => by
+    rw [grunStages, grunStages]
+    have := gstage_deliver_congr d s (h s (by simp)) st1 st2 as1 as2 hv
+    exact grunStages_deliver_congr d ss (fun x hx => h x (by simp [hx]))
+      (s.run d (st1, as1)).1 (s.run d (st2, as2)).1 (s.run d (st1, as1)).2 (s.run d (st2, as2)).2 this
+
+theorem gsecond_read_same' {α : Type} (d : α) (ss : List (GStage α)) (h : ∀ s ∈ ss, s.writesInput = false) (st : List α) (held : List Nat)
+    (hv : ∀ a ∈ held, a < st.length) :
+    gdeliver d (greadOnce d ss (greadOnce d ss st held).1 held) = gdeliver d (greadOnce d ss st held) := by
+  obtain ⟨ext, he⟩ := grunStages_store_grows d ss h st held
+  unfold greadOnce
+  apply grunStages_deliver_congr d ss h
+  rw [he]
+  unfold gvals
+  apply List.map_congr_left
+  intro a ha
+  simp [List.getD, List.getElem?_append_left (hv a ha)]
+
+/-- every stage built from Scale / Impute / Noise (`FitStage.toG`) and the sharing / selecting stages is non-writing -/
+theorem fit_toG_no_write (sd : List Rat → Rat) (s : FitStage) : (s.toG sd).writesInput = false := rfl
+
+/-- objects that a sharing / selecting pipeline delivers are objects that existed before the read -/
+theorem gpick_delivers_held {α : Type} (d : α) (s : GStage α) (hs : s = .share ∨ ∃ sel, s = .pick sel) (st : List α) (as : List Nat) :
+    ∀ a ∈ (s.run d (st, as)).2, a ∈ as := by
+  rcases hs with rfl | ⟨sel, rfl⟩
+  · intro a ha; simpa [GStage.run] using ha
+  · intro a ha
+    simp only [GStage.run, List.mem_filterMap] at ha
+    obtain ⟨i, _, hi⟩ := ha
+    exact List.mem_of_getElem? hi
+
+
 end Coba.C04
